@@ -4,7 +4,7 @@ import gen_http as G
 
 HARNESS = "rx_driver"
 LEAN_MODULES = ["ViaProofs.C08"]
-REQUIRED_THEOREMS = []
+REQUIRED_THEOREMS = ['Via.hex_roundtrip', 'Via.dec_roundtrip', 'Via.std_names_parse', 'Via.own_headers_parse', 'Via.chunk_header_roundtrip']
 LEVEL = "proof"
 RULE = ("requests / responses / chunks / last-chunks built through tx_request, tx_response, chunk_header and last_chunk from valid "
         "components (all 8 method ids and arbitrary upper-case methods, targets, versions, every header id of the enumeration "
